@@ -568,7 +568,14 @@ func (e *SpecEnv) evalCall(c *ast.CallExpr) SVal {
 		var guard, body string
 		if len(args) == 4 {
 			lo, hi := e.toIX(e.eval(args[1])), e.toIX(e.eval(args[2]))
-			guard = sAnd(g.M.ixLe(lo, q), g.M.ixLt(q, hi))
+			// quantifier discipline: quantify over the absolute cell index of the first slice indexed by k,
+			// so that the trigger is a select on a bare bound variable
+			if base := e.indexBase(args[3], k); base != "" && base != g.M.IxLit(0) {
+				sub = e.bind(k, SVal{S: g.M.ixSub(q, base), T: typInt, Sort: g.M.IX()})
+				guard = sAnd(g.M.ixLe(g.M.ixAdd(base, lo), q), g.M.ixLt(q, g.M.ixAdd(base, hi)))
+			} else {
+				guard = sAnd(g.M.ixLe(lo, q), g.M.ixLt(q, hi))
+			}
 			body = sub.eval(args[3]).S
 		} else {
 			guard = "true"
@@ -608,6 +615,33 @@ func (e *SpecEnv) evalCall(c *ast.CallExpr) SVal {
 	case "obj":
 		v := e.eval(args[0])
 		return SVal{S: pObj(e.ptrOf(v)), T: typInt, Sort: "Int"}
+	case "iserr":
+		// iserr(e, *T) / iserr(e, sentinelVar): errors.As / errors.Is class membership
+		v := e.eval(args[0])
+		if id, ok := args[1].(*ast.Ident); ok && e.pkg != nil {
+			if gv := g.findGlobal(e.pkg, id.Name); gv != nil {
+				return SVal{S: app("errclass", v.S, g.sentinelClass(gv)), T: bt, Sort: "Bool"}
+			}
+		}
+		t := e.resolveType(args[1])
+		return SVal{S: app("errclass", v.S, fmt.Sprint(g.typeID(t))), T: bt, Sort: "Bool"}
+	case "valid":
+		// valid(p, n): n elements of p's element type are addressable at p
+		p := e.eval(args[0])
+		n := e.toIX(e.eval(args[1]))
+		var es int64 = 1
+		var ptr string
+		if et, ok := deref(p.T); ok {
+			es = g.L.Size(et)
+			ptr = p.S
+		} else if st, ok := p.T.Underlying().(*types.Slice); ok {
+			es = g.L.Size(st.Elem())
+			ptr = app("sl.ptr", p.S)
+		} else {
+			specFail("valid: not a pointer")
+		}
+		return SVal{S: sOr(g.M.ixLe(n, g.M.IxLit(0)), sAnd(g.nonNil(ptr), g.M.ixLe(g.M.IxLit(0), pOff(ptr)),
+			g.M.ixLe(g.M.ixAdd(pOff(ptr), g.M.ixMulC(n, es)), app("objsize", pObj(ptr))))), T: bt, Sort: "Bool"}
 	case "unchanged":
 		// unchanged(lvalue): value equals its value in the old state
 		if e.old == nil {
@@ -768,4 +802,52 @@ func (e *SpecEnv) EvalRegion(x ast.Expr) (r Region, err error) {
 		specFail("assigns: %s is not a location", src)
 	}
 	return Region{Obj: pObj(v.Addr), Lo: pOff(v.Addr), Hi: g.M.ixAdd(pOff(v.Addr), g.M.IxLit(g.L.Size(v.T))), T: v.T, Src: src}, nil
+}
+
+
+// indexBase finds, in body, the first expression s[k] indexing a one-cell-element slice or array by the
+// bare variable k and returns the cell offset of s[0] (or "" if there is none).
+func (e *SpecEnv) indexBase(body ast.Expr, k string) string {
+	g := e.g
+	found := ""
+	ast.Inspect(body, func(n ast.Node) bool {
+		if found != "" {
+			return false
+		}
+		// do not look inside nested quantifiers binding the same name, old() is fine
+		ix, ok := n.(*ast.IndexExpr)
+		if !ok {
+			return true
+		}
+		id, ok := ix.Index.(*ast.Ident)
+		if !ok || id.Name != k {
+			return true
+		}
+		func() {
+			defer func() { recover() }()
+			base := e.eval(ix.X)
+			t := base.T
+			if t == nil {
+				return
+			}
+			if et, ok := deref(t); ok {
+				if at, ok := et.Underlying().(*types.Array); ok && g.L.Size(at.Elem()) == 1 {
+					found = pOff(base.S)
+				}
+				return
+			}
+			switch u := t.Underlying().(type) {
+			case *types.Slice:
+				if g.L.Size(u.Elem()) == 1 {
+					found = pOff(app("sl.ptr", base.S))
+				}
+			case *types.Array:
+				if g.L.Size(u.Elem()) == 1 && base.Addr != "" {
+					found = pOff(base.Addr)
+				}
+			}
+		}()
+		return true
+	})
+	return found
 }
